@@ -134,7 +134,8 @@ fn to_res(r: insim::Result<insim::Packet>) -> AppRes {
 fn run_ws(sc: &WsSc) -> WsRun {
     let rt = tokio::runtime::Builder::new_current_thread().enable_all().build().unwrap();
     let mut events = Vec::new();
-    let r: Result<(), String> = rt.block_on(async {
+    crate::model::enter_guard();
+    let r: Result<Result<(), String>, Box<dyn std::any::Any + Send>> = std::panic::catch_unwind(std::panic::AssertUnwindSafe(|| rt.block_on(async {
         let small = sc.steps.iter().any(|s| matches!(s, WsStep::WriteBurst(_)));
         let lsock = tokio::net::TcpSocket::new_v4().map_err(|e| e.to_string())?;
         if small {
@@ -329,7 +330,15 @@ fn run_ws(sc: &WsSc) -> WsRun {
             },
         }
         Ok(())
-    });
+    })));
+    crate::model::leave_guard();
+    let r = match r {
+        Err(_) => {
+            events.push(WEv::Read { res: AppRes::Other(format!("panic: {}", crate::model::take_panic_msg())), slow: false });
+            Ok(())
+        },
+        Ok(x) => x,
+    };
     WsRun {
         events,
         harness_error: r.err(),
